@@ -31,15 +31,26 @@ def small_types():
     return [x.strip().strip('"') for x in m.group(1).replace("\n", " ").split(",")]
 
 
-def buffer_key(m):
-    """signature of a decode finding: kind / type (+ the call site for panics)"""
+EXT_TYPES = ("Block", "SendBlock", "SyncMessage", "CompactBlock", "RelayMessage")
+
+
+def finding_key(m):
+    """signature of a decode finding: kind / type, or the specific call site + input shape of a recorded defect"""
     kind, ty, detail = m["kind"], m["ty"], m.get("detail", "")
-    if kind.startswith("panic/getters-compatible") and ty in ("InIBD", "SyncMessage") and "subtract with overflow" in detail \
-            and m.get("code", 0) < 2:
+    if kind.startswith("panic/getters-compatible") and ty in ("InIBD", "SyncMessage") and m.get("code", 0) < 2 \
+            and ("subtract with overflow" in detail or "out of range for slice" in detail):
         # a table WITHOUT fields is accepted in compatible mode whatever follows its size word; field_count() then
         # computes (first offset / 4) - 1 on garbage
         return "panic/InIBD.field_count/compat-accepted-malformed-empty-table"
+    if kind == "panic/deep-compatible" and ty in EXT_TYPES and str(m.get("mut", "")).startswith("extra-field:") \
+            and "BytesReader" in detail and "unwrap" in detail:
+        # Block / CompactBlock decoded compatibly with ONE extra field that is not a well-formed `Bytes`:
+        # extension() does BytesReader::from_slice(..).unwrap()
+        return "panic/extension-unwrap/compat-accepted-extra-field-not-bytes"
     return "%s/%s" % (kind, ty)
+
+
+buffer_key = finding_key
 
 
 def replay_buffers(c, recs, strict_only=False, tag="replay_buffers"):
@@ -100,11 +111,7 @@ def small_buffers(c, tier, strict_only=False):
 
 
 # ------------------------------------------------------------------------------------------------ (a2) mutations
-def mutation_key(m):
-    kind, ty, detail = m["kind"], m["ty"], m.get("detail", "")
-    if kind.startswith("panic/") and "subtract with overflow" in detail and ty in ("InIBD", "SyncMessage") and m.get("code", 0) < 2:
-        return "panic/InIBD.field_count/compat-accepted-malformed-empty-table"
-    return "%s/%s" % (kind, ty)
+mutation_key = finding_key
 
 
 def enumerate_mutations(c, cfg, timeout):
@@ -115,13 +122,33 @@ def enumerate_mutations(c, cfg, timeout):
     if res["violated"]:
         c.violation("model/" + res["violated"], "the mutation model violates %s (%s)" % (res["violated"], cfg),
                     {"kind": "model", "module": "MC_C16Mut", "cfg": cfg, "tlc_tail": res["out"][-3000:]})
-    V.require_coverage(res, ["Load", "Step"], cfg)
+    V.require_coverage(res, ["Load", "Pick", "Step"], cfg)
     c.add_tlc(res, cfg)
     recs = []
-    for f in sorted(glob.glob(os.path.join(outdir, "*.json"))):
-        recs += json.load(open(f))["muts"]
+    files = sorted(glob.glob(os.path.join(outdir, "*.json")))
+    if len(files) != res["coverage"]["Step"][1] and not res["violated"]:
+        raise V.ToolError("MC_C16Mut took %d Step transitions but wrote %d files" % (res["coverage"]["Step"][1], len(files)))
+    for f in files:
+        j = json.load(open(f))
+        ty, enc = j["ty"], j["enc"]
+        base = "%s#%d" % (ty, j["k"])
+        recs.append({"id": base + "/valid", "ty": ty, "mut": "valid", "buf": enc, "code": 3})
+        for n, w in enumerate(j["words"]):
+            buf = list(enc)
+            buf[w["p"]:w["p"] + 4] = w["w"]
+            recs.append({"id": "%s/w%d" % (base, n), "ty": ty, "mut": "word@%d(%s):=%s" % (w["p"], w["role"], w["w"]), "buf": buf,
+                         "code": w["code"]})
+        for n, r in enumerate(j["resized"]):
+            recs.append({"id": "%s/r%d" % (base, n), "ty": ty, "mut": r["how"], "buf": r["buf"], "code": r["code"]})
     shutil.rmtree(outdir, ignore_errors=True)
-    return recs, res
+    # the same buffer can arise from several values of a type: judge it once
+    seen, out = set(), []
+    for r in recs:
+        key = (r["ty"], bytes(r["buf"]))
+        if key not in seen:
+            seen.add(key)
+            out.append(r)
+    return out, res
 
 
 def replay_mutations(c, recs, tag="mutations"):
@@ -141,6 +168,7 @@ def replay_mutations(c, recs, tag="mutations"):
             m = x["mismatch"]
             rec = index[m["id"]]
             m["code"] = rec["code"]
+            m["mut"] = rec["mut"]
             c.violation(mutation_key(m), "%s %s: %s" % (m["ty"], rec["mut"], m["detail"][:400]),
                         {"kind": "mutation", "record": rec, "detail": m})
     return summ[0]
@@ -149,15 +177,6 @@ def replay_mutations(c, recs, tag="mutations"):
 # ------------------------------------------------------------------------------------------------ (b) reconstruction
 def recon_key(m):
     return "%s/%s" % (m["kind"], m["sig"])
-
-
-def enumerate_recon(c, cfg, timeout):
-    res = V.tlc(PID, "MC_CompactBlock", cfg, workers=8, timeout=timeout, xmx="8g")
-    if res["violated"]:
-        c.violation("model/" + res["violated"], "CompactBlock.tla violates %s (%s)" % (res["violated"], cfg),
-                    {"kind": "model", "module": "MC_CompactBlock", "cfg": cfg, "tlc_tail": res["out"][-3000:]})
-    c.add_tlc(res, cfg)
-    return res
 
 
 def replay_recon(c, cases, tag="recon"):
